@@ -121,7 +121,13 @@ fn set_mates(records: &mut [Record]) {
                 let record = &mut left[i];
                 let mate = &mut right[j - mid];
 
-                set_downstream_mate(i, record, j, mate);
+                // Mate fields of attached records are not stored. They are recalculated when
+                // reading, so records can only be attached if that restores the given values.
+                if is_mate_pair_resolvable(record, mate) {
+                    set_downstream_mate(i, record, j, mate);
+                } else {
+                    set_detached(record);
+                }
             } else {
                 set_detached(record);
             }
@@ -135,6 +141,46 @@ fn set_mates(records: &mut [Record]) {
 
         i -= 1;
     }
+}
+
+// Returns whether resolving `record` and its downstream `mate` as a pair (see
+// `crate::io::reader::container::slice::resolve_mates`) reproduces their mate fields.
+fn is_mate_pair_resolvable(record: &Record, mate: &Record) -> bool {
+    fn has_mate_fields_of(record: &Record, mate: &Record) -> bool {
+        record.bam_flags.is_mate_reverse_complemented() == mate.bam_flags.is_reverse_complemented()
+            && record.bam_flags.is_mate_unmapped() == mate.bam_flags.is_unmapped()
+            && record.mate_reference_sequence_id == mate.reference_sequence_id
+            && record.mate_alignment_start == mate.alignment_start
+    }
+
+    // The mate is not the last segment of the template.
+    if mate.mate_distance.is_some() {
+        return false;
+    }
+
+    if !has_mate_fields_of(record, mate) || !has_mate_fields_of(mate, record) {
+        return false;
+    }
+
+    let template_length = match (record.alignment_start, mate.alignment_start) {
+        (Some(record_start), Some(mate_start)) => {
+            let start = usize::from(record_start.min(mate_start));
+
+            let end = record
+                .alignment_end()
+                .max(mate.alignment_end())
+                .map(usize::from)
+                .unwrap_or(start);
+
+            match i32::try_from(end.abs_diff(start) + 1) {
+                Ok(n) => n,
+                Err(_) => return false,
+            }
+        }
+        _ => 0,
+    };
+
+    record.template_length == template_length && mate.template_length == -template_length
 }
 
 fn set_downstream_mate(i: usize, record: &mut Record, j: usize, mate: &mut Record) {
